@@ -183,6 +183,10 @@ def r46(F):
     reg = util.region(gb, tt, stop)
     gets = [b for b, t in gb.calls() if b in reg and callee(t) == "ucglib::build::opcode::scope::Stack::get"]
     tup = [b for b, t in gb.calls() if b in reg and callee(t).endswith("::get_env_vars_tuple")]
+    if not tup:
+        # `symbols.get(name).or_else(|| .. get_env_vars_tuple ..)`: the fallback sits in a closure of get_binding
+        in_clo = [n for n in F.fns if n.startswith(gb.name + "::{closure") and any(callee(t).endswith("::get_env_vars_tuple") for b, t in F.fns[n].calls())]
+        need(not in_clo, "get_binding: the environment tuple is produced in a closure (or_else): the order of the two lookups is not read by this rule")
     ok = bool(gets) and bool(tup) and all(cfg.dominates(gb, gets[0], x) for x in tup)
     # the tuple is used only on the is_none edge of the local lookup
     r.inst("get_binding:env", gb.where(sb), ok, "local symbol named env wins; otherwise the environment tuple" if ok else "`env` does not consult local symbols before the environment tuple")
